@@ -32,6 +32,7 @@ FIXED = [
  ("readers panicked when intact chunks appear in the wrong place", ["C12"], "D23", "a block overwritten by a copy of another block (intact chunks out of order) made Open/Get/Fold/reader panic (slice bounds, multi-gigabyte allocation) in DecodeLogRecord"),
  ("an expired string key answered WRONGTYPE", ["C19"], "D24", "HSet/SAdd/LPush/ZAdd... on a string whose TTL had passed returned the wrong-type error instead of treating the key as absent"),
  ("structure commands treated a string with an overflowed TTL", ["C19"], "D24b", "follow-up to D24: the expiry test added to findMetadata (expire != 0) disagreed with Get (expire > 0) for a TTL beyond the year 2262, so HSet... replaced a string that Get still serves; found when 'for ever' TTLs were added to the C19 workload"),
+ ("merge directory is derived from the cleaned absolute", ["C02","C06","C07"], "D26", "DirPath spelled with a trailing '/.' (or '.' vs the absolute path) named another merge directory than other spellings of the same data directory: a merge finished under one spelling was not adopted under another, stayed behind and was adopted later over newer files (keys lost and resurrected); found when restarts began to alternate spellings of DirPath"),
  ("the hint file stayed open", ["C20"], "D25", "after an adopted merge under MMap the data directory kept a 512 MiB..1 GiB hint file that Backup copied byte for byte (backup of KiB of data took minutes; hit the harness watchdog)"),
 ]
 OPEN = [
